@@ -241,9 +241,9 @@ class SingleStatementDetector:  # thailint: ignore[srp.violation]
 
     @staticmethod
     def _find_first_method_line(node: ast.ClassDef) -> int | None:
-        """Find line number of first method in class."""
+        """Find line number of first method (or nested class) in class: the field area ends there."""
         for item in node.body:
-            if isinstance(item, (ast.FunctionDef, ast.AsyncFunctionDef)):
+            if isinstance(item, (ast.FunctionDef, ast.AsyncFunctionDef, ast.ClassDef)):
                 return item.lineno
         return None
 
